@@ -133,6 +133,10 @@ class P:
         # directed: every count 0..31 at exact length, pairwise distinct field values (exposes swaps)
         for c in range(0, 32):
             out.append("nf5 %s %s" % (hx(bytes([192, 0, 2, c])), hx(self.packet(rng, c, distinct=True))))
+        # counts ABOVE 255 with that many records really in the datagram (max-udp-size raised): the count is 16 bits wide, and
+        # 257 is not 1 (low octet inside 1..30, zero, outside; up to what a UDP datagram can carry)
+        for c in (256, 257, 270, 286, 287, 300, 512, 513, 542, 1025, 1054, 1364):
+            out.append("nf5 %s %s" % (hx(rand_addr(rng)), hx(self.packet(rng, c, distinct=(c % 2 == 0)))))
         out += [self.gen_case(rng) for _ in range(budget)]
         # retention: several packets are decoded first and printed / encoded only afterwards (a decoded message must not live
         # in storage that a later decode reuses)
